@@ -8,7 +8,11 @@ pub mod c05;
 pub mod c06;
 pub mod c07;
 pub mod c08;
+pub mod c09;
 pub mod c10;
+pub mod c11;
+pub mod c12;
+pub mod setcommon;
 pub mod c13;
 pub mod c14;
 pub mod c16;
@@ -26,7 +30,10 @@ pub fn run(ctx: &Ctx) -> bool {
         "C06" => c06::run(ctx),
         "C07" => c07::run(ctx),
         "C08" => c08::run(ctx),
+        "C09" => c09::run(ctx),
         "C10" => c10::run(ctx),
+        "C11" => c11::run(ctx),
+        "C12" => c12::run(ctx),
         "C13" => c13::run(ctx),
         "C14" => c14::run(ctx),
         "C16" => c16::run(ctx),
@@ -46,7 +53,10 @@ pub fn replay(prop: &str, _kind: &str, case: &J) -> Option<Verdict> {
         "C06" => c06::replay(case),
         "C07" => c07::replay(case),
         "C08" => c08::replay(case),
+        "C09" => c09::replay(case),
         "C10" => c10::replay(case),
+        "C11" => c11::replay(case),
+        "C12" => c12::replay(case),
         "C13" => c13::replay(case),
         "C14" => c14::replay(case),
         "C16" => c16::replay(case),
